@@ -218,6 +218,37 @@ fn typed_constant_cases() -> Vec<Case> {
             }
         }
     }
+    // a constant typed through a chain of typed values N deep (N = 1..=40), for a signed, an unsigned and a float type
+    for (tn, ty) in [("i32", Inst::new("TypeInt", None, Some(300), vec![Arg::Lit32(32), Arg::Lit32(1)])), ("f32", Inst::new("TypeFloat", None, Some(300), vec![Arg::Lit32(32)])), ("i64", Inst::new("TypeInt", None, Some(300), vec![Arg::Lit32(64), Arg::Lit32(1)]))] {
+        for n in 1..=40u32 {
+            let mut insts = vec![ty.clone()];
+            for k in 0..n {
+                insts.push(Inst::new("Undef", Some(300 + k), Some(301 + k), vec![]));
+            }
+            let lit = match tn {
+                "i32" => Arg::Lit32(0xFFFF_FFFF),
+                "f32" => Arg::Lit32(0x3FC0_0000),
+                _ => Arg::Lit64(0xFFFF_FFFF_FFFF_FFFB),
+            };
+            insts.push(Inst::new("Constant", Some(300 + n), Some(399), vec![lit]));
+            out.push(Case { id: format!("Constant:{}:typed-through-a-chain-of-{}", tn, n), insts, raw: None, version: 0x0001_0400, bound: 500 });
+        }
+    }
+    // long strings in which a multi-byte character straddles every multiple of 1 KiB up to 64 KiB (two-, three- and
+    // four-byte characters, at each phase), so that a rendering that works through the text in chunks of any such size splits one
+    for (cn, ch) in [("2byte", "\u{e9}"), ("2byte-other", "\u{fc}"), ("3byte", "\u{20ac}"), ("4byte", "\u{1f600}")] {
+        for phase in 1..ch.len() {
+            let mut t = String::new();
+            for j in 1..=64usize {
+                let target = j * 1024 - phase;
+                while t.len() < target {
+                    t.push((b'a' + (t.len() % 26) as u8) as char);
+                }
+                t.push_str(ch);
+            }
+            out.push(Case { id: format!("String:{}-straddling-every-KiB:phase{}", cn, phase), insts: vec![Inst::new("String", None, Some(5), vec![Arg::Str(t.clone())]), Inst::new("Name", None, None, vec![Arg::IdRef(5), Arg::Str(t)])], raw: None, version: 0x0001_0400, bound: 30 });
+        }
+    }
     // two constants that carry the SAME result id but have types of different classes (ids defined twice: the loader
     // accepts it): how a literal is printed follows the constant's own result TYPE, nothing else
     {
